@@ -1,5 +1,5 @@
 import HqModel.Lemmas.CoreSteps
-import HqModel.Lemmas.CoreInvResStep
+import HqModel.Lemmas.CoreInvFull
 /-!
 # C05 — the server never overbooks and only places where a task can run
 
@@ -59,35 +59,41 @@ example : Fits [40000, 20000] [⟨0, .amount 20000⟩, ⟨1, .amount 10000⟩] :
 
 /-! ## The global invariant
 
-`Core.C05Inv s` = the structural invariant `Core.Inv` (task ids unique; every id in `assigned_tasks` /
-`prefilled_tasks` / a multi-node assignment of a worker is a task in the matching state — Assigned/Running there,
-or Retracting with a redirect to that worker; redirects only for Retracting tasks, at most one per task; the sets
-have no duplicates; registered consumers of a live task are Waiting; RunningMultiNode ⇒ multi-node request)
-∧ the resource equation `Core.Res` ∧ every request names each resource once.
+`Core.C05Full s` = `Core.C05Inv s ∧ Core.TWI noD s`, i.e.
+* the structural invariant `Core.Inv` — task ids unique; **list → state**: every id in `assigned_tasks` /
+  `prefilled_tasks` / a multi-node assignment of a worker is a task in the matching state (Assigned/Running there,
+  or Retracting with a redirect to that worker); redirects only for Retracting tasks, at most one per task; the
+  sets have no duplicates; registered consumers of a task in the map are Waiting; RunningMultiNode ⇒ multi-node
+  request;
+* **state → list** (`Core.TW3`, `Core.MNU`): a task Assigned/Running/Prefilled on `w` is in the corresponding set of
+  worker `w`; every worker of a RunningMultiNode task is in a multi-node assignment for it; every redirect target
+  holds the task;
+* the resource equation `Core.Res`; every request names each resource once (`Core.RqsOk`).
 
 `c05_inv_partial` is *partial* in exactly these points (all side conditions are decidable and stated on the
 pre-state of the step / of the message):
 * `NoSaturation` — a Running/RunningPrefilled for a Prefilled or Retracting task must fit into the reporting
   worker's free vector. The protocol does NOT guarantee this (finding F29, `c05_f29_witness`).
-* `StepHyp`, update part (`RejectOk`) — a Reject of an Assigned task comes from its worker and variant; otherwise
+* `StepHyp4`, update part (`RejectOk`) — a Reject of an Assigned task comes from its worker and variant; otherwise
   `task_reject` re-queues the task without `remove_sn_task` (`c05_reject_witness`). A correct worker obeys it.
-* `StepHyp`, schedule part — `QueueOkD` (every id in ready/prefill queue `i` is a task of request `i` and no task
-  of the map lists it as a consumer) and `RdIn` (every redirect target holds the task): clauses of the repo's
-  `TaskQueues/Core/Worker::sanity_check` about queues, dependencies and redirects that are not yet proved
-  inductive here (they are evaluated on real snapshots by the harness). Placement feasibility itself needs no
-  hypothesis: the model rejects an overbooking placement (`!bad-choice placement-overbooks`).
+* `StepHyp4`, schedule part — `QueueOkD` (every id in ready/prefill queue `i` is a task of request `i` and no task
+  of the map lists it as a consumer): the queue/dependency clause of the repo's `TaskQueues/Core::sanity_check`,
+  not yet proved inductive here (evaluated on every real snapshot by the driver), and `SolMnOk` (multi-node
+  placements only for multi-node requests). Placement feasibility itself needs no hypothesis: the model rejects an
+  overbooking placement (`!bad-choice placement-overbooks`). The redirect-target clause `RdIn` is part of the
+  invariant (no hypothesis).
 * `newWorker` carries a fresh record, `newRq` a request without repeated resource indices (what `Worker::new` /
   `ResourceRequest::validate` guarantee).
 -/
 
-/-- **`ResInv` is inductive**: the invariant (structure + `free + Σ reserved = total`) is preserved by EVERY
-operation of the core — new worker, worker loss, new request, new tasks, cancel, every task-update message list,
-retract response, one scheduling round with an arbitrary solver solution and arbitrary hash-order picks — under
-the side conditions `StepHyp` and `NoSaturation`. -/
-theorem c05_inv_partial (s s' : Core.State) (op : Core.Op) (out : Core.Out) (hi : Core.C05Inv s)
-    (hstep : Core.StepHyp s op) (hns : Core.NoSaturation s op) (h : Core.step s op = .ok (s', out)) :
-    Core.C05Inv s' :=
-  Core.c05_step hi (Core.OpOk3.of hstep hns) h
+/-- **`ResInv` is inductive**: the invariant (structure in both directions + `free + Σ reserved = total`) is
+preserved by EVERY operation of the core — new worker, worker loss, new request, new tasks, cancel, every
+task-update message list, retract response, one scheduling round with an arbitrary solver solution and arbitrary
+hash-order picks — under the side conditions `StepHyp4` and `NoSaturation`. -/
+theorem c05_inv_partial (s s' : Core.State) (op : Core.Op) (out : Core.Out) (hi : Core.C05Full s)
+    (hstep : Core.StepHyp4 s op) (hns : Core.NoSaturation s op) (h : Core.step s op = .ok (s', out)) :
+    Core.C05Full s' :=
+  Core.c05_step_full hi hstep hns h
 
 /-- **the server never overbooks**, for all operation sequences: in every state reached from the empty core by a
 run whose operations satisfy the side conditions, for every single-node worker and every resource index `r`:
@@ -95,40 +101,73 @@ run whose operations satisfy the side conditions, for every single-node worker a
 `total r`; `need t` = the entries of variant `v` of the task's request, `v` from the state (Assigned/Running) or
 from the redirect (Retracting) (`Core.reserved_assigned`, `Core.reserved_retracting`). -/
 theorem c05_resinv_reachable (ops : List Core.Op) (s : Core.State) (out : Core.Out)
-    (hok : Core.RunOk Core.OpOk3 {} ops) (hrun : Core.run {} ops = .ok (s, out))
+    (hok : Core.RunOk Core.OpOk4 {} ops) (hrun : Core.run {} ops = .ok (s, out))
     (w : Nat) (wk : Core.Worker) (A : List Core.TaskId) (F : List Nat) (P : List Core.TaskId)
     (hw : s.worker? w = some wk) (ha : wk.assign = .sn A F P) (r : Nat) :
     Core.getD F r + (A.map fun t => Core.need wk.total (s.reserved t) r).sum = Core.getD wk.total r :=
-  (Core.c05_run hok hrun).resinv hw ha r
+  (Core.c05_run_full hok hrun).c05.resinv hw ha r
 
 /-- in particular no component of the free vector exceeds the worker's total and no reservation exceeds it -/
 theorem c05_free_le_total (ops : List Core.Op) (s : Core.State) (out : Core.Out)
-    (hok : Core.RunOk Core.OpOk3 {} ops) (hrun : Core.run {} ops = .ok (s, out))
+    (hok : Core.RunOk Core.OpOk4 {} ops) (hrun : Core.run {} ops = .ok (s, out))
     (w : Nat) (wk : Core.Worker) (A : List Core.TaskId) (F : List Nat) (P : List Core.TaskId)
     (hw : s.worker? w = some wk) (ha : wk.assign = .sn A F P) (r : Nat) : Core.getD F r ≤ Core.getD wk.total r := by
   have := c05_resinv_reachable ops s out hok hrun w wk A F P hw ha r
   omega
 
+/-- **the worker ↔ task half of the sanity checks holds in every reachable state** (both directions), for all
+operation sequences satisfying the protocol/sanity side conditions `OpOk2` (no saturation condition needed):
+(a)/(b)/(d) list → state, (c)/(d) state → list, redirects. -/
+theorem c05_worker_task_wf (ops : List Core.Op) (s : Core.State) (out : Core.Out)
+    (hok : Core.RunOk Core.OpOk2 {} ops) (hrun : Core.run {} ops = .ok (s, out)) :
+    (∀ w wk A F P t, s.worker? w = some wk → wk.assign = .sn A F P → t ∈ A →
+      ∃ task, s.task? t = some task ∧ ((∃ v, task.state = .assigned w v) ∨ (∃ v, task.state = .running w v) ∨
+        (∃ w0 v, task.state = .retracting w0 ∧ (t, w, v) ∈ s.redirects))) ∧
+    (∀ w wk A F P t, s.worker? w = some wk → wk.assign = .sn A F P → t ∈ P →
+      ∃ task, s.task? t = some task ∧ task.state = .prefilled w) ∧
+    (∀ w wk t root st, s.worker? w = some wk → wk.assign = .mn t root st →
+      ∃ task l, s.task? t = some task ∧ task.state = .runningMN l ∧ w ∈ l) ∧
+    (∀ t task w v, s.task? t = some task → (task.state = .assigned w v ∨ task.state = .running w v) →
+      ∃ wk A F P, s.worker? w = some wk ∧ wk.assign = .sn A F P ∧ t ∈ A) ∧
+    (∀ t task w, s.task? t = some task → task.state = .prefilled w →
+      ∃ wk A F P, s.worker? w = some wk ∧ wk.assign = .sn A F P ∧ t ∈ P) ∧
+    (∀ t task l x, s.task? t = some task → task.state = .runningMN l → x ∈ l →
+      ∃ wk root st, s.worker? x = some wk ∧ wk.assign = .mn t root st) ∧
+    (∀ t w v, (t, w, v) ∈ s.redirects → (∃ task w0, s.task? t = some task ∧ task.state = .retracting w0) ∧
+      t ∈ Core.asgW s.workers w ∧ ∀ w' v', (t, w', v') ∈ s.redirects → w' = w ∧ v' = v) := by
+  have hF := Core.run_invF hok hrun
+  refine ⟨?_, ?_, ?_, ?_, ?_, ?_, ?_⟩
+  · intro w wk A F P t hw ha ht; exact hF.inv.assigned_sound hw ha ht
+  · intro w wk A F P t hw ha ht; exact hF.inv.prefilled_sound hw ha ht
+  · intro w wk t root st hw ha; exact hF.inv.mn_sound hw ha
+  · intro t task w v ht hs; exact hF.assigned_complete ht hs
+  · intro t task w ht hs; exact hF.prefilled_complete ht hs
+  · intro t task l x ht hs hx; exact hF.mn_complete ht hs hx
+  · intro t w v hm
+    obtain ⟨h1, h2⟩ := hF.inv.redirect_sound hm
+    exact ⟨h1, hF.redirect_complete t w v hm, h2⟩
+
 /-- **F29 — `NoSaturation` cannot be dropped**: a concrete run satisfying all side conditions (hence ending in a
-state with `C05Inv`) followed by one `RunningPrefilled` message for which `NoSaturation` fails; the reactor accepts
+state with `C05Full`) followed by one `RunningPrefilled` message for which `NoSaturation` fails; the reactor accepts
 it, `task_from_prefilled_to_started` saturates and afterwards `free + Σ reserved ≠ total` on worker 1 (resource 0:
 `0 + 2·10000 ≠ 10000`). Scenario: a running task is cancelled while the worker has a prefilled backlog task; the
 server releases the reservation at once and assigns another task; the worker reuses the allocation for the
 backlog task. -/
 theorem c05_f29_witness :
-    ∃ s s' out out', Core.RunOk Core.OpOk3 {} Core.f29Ops ∧ Core.run {} Core.f29Ops = .ok (s, out) ∧ Core.C05Inv s ∧
-      ¬ Core.NoSaturation s Core.f29Op ∧ Core.StepHyp s Core.f29Op ∧
-      Core.step s Core.f29Op = .ok (s', out') ∧ Core.resAtB s' 1 0 = false ∧ ¬ Core.C05Inv s' := by
+    ∃ s s' out out', Core.RunOk Core.OpOk4 {} Core.f29Ops ∧ Core.run {} Core.f29Ops = .ok (s, out) ∧ Core.C05Full s ∧
+      ¬ Core.NoSaturation s Core.f29Op ∧ Core.StepHyp4 s Core.f29Op ∧
+      Core.step s Core.f29Op = .ok (s', out') ∧ Core.resAtB s' 1 0 = false ∧ ¬ Core.C05Full s' := by
   obtain ⟨s, s', out, out', h1, h2, h3, h4, h5, h6, h7⟩ := Core.f29_witness
-  refine ⟨s, s', out, out', h1, h2, h3, ?_, ?_, h5, h6, h7⟩
-  · -- the protocol part holds for this message (it is no Reject), so it is the saturation part that fails
-    intro hns
-    apply h4
-    refine Core.OpOk3.of ?_ hns
-    simp only [Core.StepHyp, Core.f29Op, Core.UpdatesOk, Core.UpdProto, true_and]
+  have hok4 : Core.RunOk Core.OpOk4 {} Core.f29Ops := Core.RunOk.mono (fun _ _ h => h.ok4) _ _ h1
+  have hsh : Core.StepHyp4 s Core.f29Op := by
+    simp only [Core.StepHyp4, Core.f29Op, Core.UpdatesOk, Core.UpdProto, true_and]
     split <;> trivial
-  · simp only [Core.StepHyp, Core.f29Op, Core.UpdatesOk, Core.UpdProto, true_and]
-    split <;> trivial
+  refine ⟨s, s', out, out', hok4, h2, Core.c05_run_full hok4 h2, ?_, hsh, h5, h6, fun hf => h7 hf.c05⟩
+  intro hns
+  apply h4
+  refine Core.OpOk3.of ?_ hns
+  simp only [Core.StepHyp, Core.f29Op, Core.UpdatesOk, Core.UpdProto, true_and]
+  split <;> trivial
 
 /-- **the Reject protocol condition cannot be dropped**: after a run satisfying all side conditions a Reject from
 a worker the task is not assigned to is accepted, the task becomes Waiting and stays in `assigned_tasks` of its
@@ -141,7 +180,7 @@ theorem c05_reject_witness :
 
 /-- non-vacuity: the run of `c05_f29_witness` satisfies all side conditions, reaches a state in which worker 1
 holds a task and has nothing free — and the equation `0 + 10000 = 10000` is the theorem's instance -/
-example : Core.RunOk Core.OpOk3 {} Core.f29Ops ∧
+example : Core.RunOk Core.OpOk4 {} Core.f29Ops ∧
     ((Core.run {} Core.f29Ops).toOption.map fun r => r.1.workers.map fun w => (Core.wAsg w, Core.wPre w, w.total)) =
       some [([(1, 2)], [(1, 1)], [10000])] := by decide
 
